@@ -387,8 +387,30 @@ impl CodegenBackend for ProtobufBackend {
             .iter()
             .map(|field| {
                 let field_ident = self.cx.rust_name(field.did);
-                let merge =
-                    self.codegen_merge_field("_inner_pilota_value".into(), &field.ty, field.kind);
+                let boxed_one_of = self.is_one_of(&field.ty)
+                    && self
+                        .cx
+                        .with_adjust(field.did, |adj| adj.is_some_and(|adj| adj.boxed()));
+                let merge = if boxed_one_of {
+                    // a oneof that refers back to its message is stored as Option<Box<_>>,
+                    // while the oneof's merge works on Option<_>
+                    let merge = self.codegen_merge_field(
+                        "_pilota_unboxed_value".into(),
+                        &field.ty,
+                        field.kind,
+                    );
+                    format!(
+                        r#"{{
+                        let mut _pilota_unboxed_value = _inner_pilota_value.take().map(|value| *value);
+                        let _pilota_merge_result = {merge};
+                        *_inner_pilota_value = _pilota_unboxed_value.map(::std::boxed::Box::new);
+                        _pilota_merge_result
+                    }}"#
+                    )
+                    .into()
+                } else {
+                    self.codegen_merge_field("_inner_pilota_value".into(), &field.ty, field.kind)
+                };
                 let mut tags = self.field_tags(field).map(|tag| tag.to_string());
                 let tags = tags.join("|");
 
